@@ -307,7 +307,8 @@ prop("C08", [
      "args": {"thorough": ["--d1=7", "--d2=0", "--faults=1", "--tick=1000", "--timeout-ms=600000", "--deadline-s=1500"]}},
 ],
     rule="one case = a block of 16 client-event histories; history alphabet per connection: connect, send first half "
-         "of a request, send the rest, send a whole request, read, close, shutdown(WR), abortive close (RST), plus "
+         "of a request, send the rest, send a whole request, read, close, shutdown(WR), abortive close (RST), the "
+         "composites send+close / send+shutdown / send+RST with no server step in between (data and FIN in one wake-up), plus "
          "tick(+500 ms) (thorough second part: + hold / release of the server's writes on that connection); all "
          "histories up to depth d1 on one connection and d2 on two connections (second connection only after the "
          "first: symmetry), each followed by 'all clients close, 6 ticks, run loops dry'; executed on a real "
@@ -371,8 +372,10 @@ prop("C15", [
          "Experimental::Client whose reactor threads are gated at epoll_wait and a scripted loopback server; oracle "
          "per execution: every promise settled at most once, fulfilled only with the response carrying its own tag, "
          "answered requests fulfilled by quiescence, unanswered request with an expired time-out rejected, peak of "
-         "simultaneously open server-side connections <= limit; states = nodes of the schedule tree",
-    assumptions=COMMON_ASSUME + ["requests are issued from the harness thread while the reactor threads are parked, so "
-                                 "an issue is atomic with respect to reactor steps (the issue/completion race inside "
-                                 "Client::doRequest is outside this granularity)"],
+         "simultaneously open server-side connections <= limit, no request left in the client's queue while a connection "
+         "to that host is idle; states = nodes of the schedule tree",
+    assumptions=COMMON_ASSUME + ["in the ordinary scenarios requests are issued from the harness thread while the reactor "
+                                 "threads are parked (an issue is atomic w.r.t. reactor steps); the 'fine-grained issue' "
+                                 "scenarios issue from gated threads that also park before every mutex acquisition, which "
+                                 "is the granularity at which the pool/queue hand-over is explored"],
     bounds={"quick": "n<=3, D<=1 (late-answer scenarios D<=2)", "thorough": "n<=4, D<=2 (until the deadline)"})
